@@ -668,6 +668,7 @@ def classify(c, site, symptom, docs=None):
 
 def in_known_class(c, docs=None):
     fs = features_of(c, docs=docs)
+    fs.discard("empty-string-map-key-with-leaf-value")       # fixed in /repo (4ca320c): a recurrence is a violation
     if not c.wut:
         fs.discard("map-value-ends-in-nested-record")          # reader is not run
     return sorted(fs)[0] if fs else None
@@ -811,6 +812,14 @@ def fixed_families(rng):
     F.append(("defaults", rec("D2", [("u", [mp("int"), "null"], {"default": {"a": 1}}), ("v", [arr("string"), "int"], {"default": ["x"]}),
                                      ("w", ["string", "null"], {"default": "dd"}), ("x", arr(["null", "int"]), {"default": []}),
                                      ("y", "int")]), None))
+    F.append(("defaults", rec("D5", [("id", "int"), ("grid", arr(arr("int")), {"default": [[1, 2], [3]]}),
+                                     ("index", mp(arr("string")), {"default": {"a": ["x", "y"], "b": []}}),
+                                     ("alt", [arr(mp("int")), "null"], {"default": [{"k": 1}, {}]}),
+                                     ("sub", rec("Sub5", [("tags", arr("string")), ("n", "long")]), {"default": {"tags": ["t1", "t2"], "n": 7}}),
+                                     ("mm", mp(mp("int")), {"default": {"o": {"i": 1}}}),
+                                     ("um", [mp(arr("int")), "int"], {"default": {"q": [4, 5]}}),
+                                     ("flat", arr("int"), {"default": [9, 8]})]), None))
+    F.append(("defaults", arr(rec("D6", [("g", arr(arr(arr("string"))), {"default": [[["a"], []], [["b", "c"]]]}), ("k", "int")])), None))
     F.append(("defaults", arr(rec("D3", [("a", "int", {"default": 1}), ("r", ["null", "D3"], {"default": None})])), None))
     F.append(("defaults", rec("D4", [("j", rec("DJ", [("p", "int"), ("u", ["int", "null"])]), {"default": {"p": 3, "u": 4}}),
                                      ("l", arr(["null", "int"]), {"default": [None]}), ("n", "null", {"default": None}), ("z", "int")]), None))
@@ -1212,6 +1221,47 @@ def nested_union_in_default(d, s, named, top=True):
     return False
 
 
+def nested_container(d, inside=False):
+    """the default holds a list/dict inside a list/dict"""
+    if isinstance(d, (list, dict)):
+        if inside:
+            return True
+        return any(nested_container(x, True) for x in (d if isinstance(d, list) else d.values()))
+    return False
+
+
+def repeated_defaults(c, r, doc, done, mval):
+    """None when three copies of the document on one reader and a fourth read with the same parsed schema all give the same
+    record (equal to the model's reading mval when given, and to the binary decoding of the same data when the deleted keys are
+    top-level keys the binary writer can omit); else (which, shown, symptom)"""
+    t = json.dumps(apply_deletions(doc, done))
+    parsed = fresh(c)[0]
+    rd = impl_json_read(parsed, t + "\n" + t + "\n" + t)
+    if rd[0] != "ok" or len(rd[1]) != 3:
+        return ("three copies", "raised %s" % (rd[1],) if rd[0] != "ok" else "%d records" % len(rd[1]), rd[1] if rd[0] != "ok" else "record-count-differs")
+    again = impl_json_read(parsed, t)
+    if again[0] != "ok" or len(again[1]) != 1:
+        return ("second reader on the same parsed schema", "raised %s" % (again[1],), again[1] if again[0] != "ok" else "record-count-differs")
+    outs = rd[1] + again[1]
+    shown = " | ".join(show_val(x) for x in outs)
+    ref = mval if mval is not None else outs[0]
+    for i, o in enumerate(outs):
+        if not same_by_value(o, ref):
+            first_ok = i > 0 and same_by_value(outs[0], ref)
+            return ("record %d of 4 differs from %s" % (i + 1, "the spec default" if mval is not None else "the first"), shown,
+                    "default-consumed-by-the-first-record" if first_ok else "value-is-not-the-default")
+    # binary decoding of the same data (the datum without the deleted top-level keys)
+    if isinstance(r, dict) and all(path == () for path, f in done):
+        datum = {k: v for k, v in r.items() if k not in [f["name"] for _, f in done]}
+        b = impl_binary(fresh(c)[0], [datum, datum])
+        if b[0] == "ok":
+            for i, o in enumerate(outs):
+                if not same_by_value(o, b[1][i % 2]):
+                    return ("record %d of 4 differs from the binary decoding of the same data" % (i + 1),
+                            shown + " || binary: " + show_val(b[1][0]), "differs-from-binary-decoding")
+    return None
+
+
 def contains_items(d):
     """the default holds a non-empty list/dict somewhere (json_decoder hands the schema's own object out and consumes it)"""
     if isinstance(d, list):
@@ -1324,27 +1374,30 @@ def check_defaults(ctx, cases, model_by_case, stats):
             ctx.violation("corr:json-defaults", case, impl=str(got)[:1500], model=(mo or "")[:1500], signature="C15:model-differs:json-defaults",
                           found_input=False)
             continue
-        # the same document twice on one reader: the second record must get the defaults too
-        t = json.dumps(doc2)
-        rd2 = impl_json_read(fresh(c)[0], t + "\n" + t)
+        # the same document three times on one reader, then once more with the SAME parsed schema: every record must get the
+        # defaults (json_decoder consumes lists/dicts while iterating: a default must be copied in depth each time it is used);
+        # each record is compared with the model's reading (spec dflt) and with the binary decoding of the same data
         twice += 1
         ctx.count("corr:json-defaults-twice", (repr(c.raw), repr(doc2)), nontrivial=True)
-        if rd2[0] != "ok" or len(rd2[1]) != 2 or not same_by_value(rd2[1][0], rd2[1][1]):
-            one = done
+        bad = repeated_defaults(c, r, doc, done, mval)
+        if bad is not None:
+            one, badone = done, bad
             for d in done:
-                t1 = json.dumps(apply_deletions(doc, [d]))
-                x = impl_json_read(fresh(c)[0], t1 + "\n" + t1)
-                if x[0] != "ok" or len(x[1]) != 2 or not same_by_value(x[1][0], x[1][1]):
-                    one, rd2, t = [d], x, t1
+                x = repeated_defaults(c, r, doc, [d], None)
+                if x is not None:
+                    one, badone = [d], x
                     break
-            feat = "non-empty-array-or-map-default" if rd2[0] == "ok" and any(contains_items(f["default"]) for _, f in one) else \
+            which, shown, symptom = badone
+            nested = any(nested_container(f["default"]) for _, f in one)
+            feat = "nested-container-default" if symptom == "default-consumed-by-the-first-record" and nested else \
+                "non-empty-array-or-map-default" if symptom == "default-consumed-by-the-first-record" and any(contains_items(f["default"]) for _, f in one) else \
                 (default_feature(one[0][1], named) if len(one) == 1 else "several-defaults")
-            case = dict(c.to_json(), records_repr=repr([r, r]), document=(t + "\n" + t)[:1500],
+            t = json.dumps(apply_deletions(doc, one))
+            case = dict(c.to_json(), records_repr=repr([r, r, r]), document=(t + "\n" + t + "\n" + t)[:1500],
                         deleted=[[list(map(str, p)), f["name"]] for p, f in one])
-            ctx.violation("corr:json-defaults-twice", case,
-                          impl=(" | ".join(show_val(x) for x in rd2[1]) if rd2[0] == "ok" else "raised %s" % rd2[1])[:1500], model=(mo or "")[:1500],
-                          signature="C15:json_reader:%s:%s" % (feat, "default-consumed-by-the-first-record" if rd2[0] == "ok" else rd2[1]),
-                          found_input=True, detail="the same document twice on one reader: the second record does not get the default")
+            ctx.violation("corr:json-defaults-twice", case, impl=shown[:1500], model=(mo or "")[:1500],
+                          signature="C15:json_reader:%s:%s" % (feat, symptom), found_input=True,
+                          detail="the same document repeatedly on one reader / one parsed schema: " + which)
     stats["default_deletion_jobs"] = len(jobs)
 
 
